@@ -279,6 +279,72 @@ def rows_upscaled(V, kind, striped, hmax, kmax):
             ("[x2] pads non-negative", z3.And(L(ptop) >= 0, L(pbot) >= 0))]
 
 
+def tconv_pads(V, sx, sy, padding):
+    """transpose convolution: the REAL fixup_conv2d_backprop + add_padding_fields on a stand-in operator with symbolic kernel and IFM size (OFM
+    size as the TFLite shape rule gives it for the stride and padding).  The NPU runs it as an ordinary convolution with the weights flipped in
+    both axes (weight_compressor) over the input with zeros inserted between the samples (x2 TRANSPOSE resampling per upscaled axis; the
+    lowering uses one resampling mode for both axes, so a stride 2x1 operator has a one-row, kernel-height-1 geometry).  Output o then reads
+    upscaled sample o - P + t for tap t; it equals the TFLite reference (out[i*s - pad + f] += in[i]*w[f], pad = max((in-1)*s + k - out, 0)//2)
+    exactly when P = k - 1 - pad.  Claimed for the leading (top/left) pad per axis, in upscaled coordinates (what the skirt carries)."""
+    hl, go, gu = _mods()
+    from ethosu.vela.shape4d import Shape4D
+    from ethosu.vela.operation import Op, Padding, Kernel
+    from ethosu.vela.ethos_u55_regs.ethos_u55_regs import resampling_mode
+
+    kw, kh = V.int("kw", 1, 16), V.int("kh", 1, 16)
+    ih, iw = V.int("ifm_h", 1, 256), V.int("ifm_w", 1, 256)
+    if (sx, sy) == (2, 1):
+        V.assume(z3.And(L(kh) == 1, L(ih) == 1))  # the only 2x1 geometry the supported-operator check lets through
+    pad = Padding.SAME if padding == "SAME" else Padding.VALID
+
+    def out(i, s, k):
+        if padding == "SAME":
+            return i * s
+        d = k - s
+        return i * s + (d if d > 0 else 0)
+
+    saved_dd = go.DebugDatabase
+    go.DebugDatabase = _Obj(add_optimised=lambda *a: None)  # bookkeeping only; a stub in both modes because the operator is a stand-in
+    try:
+        return _tconv_pads(V, go, sx, sy, padding, pad, kw, kh, ih, iw, out)
+    finally:
+        go.DebugDatabase = saved_dd
+
+
+def _tconv_pads(V, go, sx, sy, padding, pad, kw, kh, ih, iw, out):
+    from ethosu.vela.shape4d import Shape4D
+    from ethosu.vela.operation import Op, Kernel
+    from ethosu.vela.ethos_u55_regs.ethos_u55_regs import resampling_mode
+
+    with core.shims(*_shims()):
+        oh, ow = out(ih, sy, kh), out(iw, sx, kw)
+        w = _Obj(shape=[kh, kw, 8, 8])
+        op = _Obj(type=Op.Conv2DBackpropInput, run_on_npu=True, inputs=[_Obj(name="shape"), w, _Obj(name="ifm")], kernel=Kernel(1, 1, sx, sy),
+                  attrs={"padding": pad, "strides": (1, sy, sx, 1), "stride_w": sx, "stride_h": sy}, ifm_resampling_mode=resampling_mode.NONE,
+                  ifm_shapes=[Shape4D(1, ih, iw, 8)], ofm_shapes=[Shape4D(1, oh, ow, 8)])
+        op = go.fixup_conv2d_backprop(op, None, None)
+        # the kernel object is rebuilt from the attributes after the fix-up (strides 1x1); sizes from the weight tensor
+        op.kernel = _K(kw, kh, 1, 1)
+        op = go.add_padding_fields(op, None, None)
+    top, left, bottom, right = op.attrs["explicit_padding"]
+    sk = op.attrs["skirt"]
+    cl = []
+    for axis, s, k, i, o, p, skp in (("height", sy, kh, ih, oh, top, sk[0]), ("width", sx, kw, iw, ow, left, sk[1])):
+        total = (L(i) - 1) * s + L(k) - L(o)
+        tf_pad = z3.If(total > 0, total, 0) / 2
+        want = L(k) - 1 - tf_pad
+        fid = "C10-transpose-conv-stride1-padding-not-mirrored"
+        claim = L(p) == want
+        if s == 1:
+            # region of the recorded finding: an axis without upscaling whose TFLite padding is asymmetric (SAME, even kernel) or whose output is
+            # larger than its input (VALID, kernel > 1)
+            claim = V.except_finding(fid, z3.Or(L(k) % 2 == 0, z3.And(padding == "VALID", L(k) > 1)), claim)
+        cl.append(("%s: leading pad == kernel - 1 - TFLite padding (flipped kernel) [%s]" % (axis, fid) if s == 1 else
+                   "%s: leading pad == kernel - 1 - TFLite padding (flipped kernel, upscaled coordinates)" % axis, claim))
+        cl.append(("%s: skirt carries the leading pad" % axis, L(skp) == L(p)) if s != 1 else ("%s: skirt is non-negative" % axis, L(skp) >= 0))
+    return cl
+
+
 # ---------------------------------------------------------------------------------------------- area / cascade
 
 
@@ -533,7 +599,7 @@ def stripe_proposals(V, modes, cascaded):
     return cl
 
 
-FUNCS = {"stripe_proposals": stripe_proposals, "rows": rows, "cols": cols, "rows_upscaled": rows_upscaled, "area": area, "cascade": cascade}
+FUNCS = {"tconv_pads": tconv_pads, "stripe_proposals": stripe_proposals, "rows": rows, "cols": cols, "rows_upscaled": rows_upscaled, "area": area, "cascade": cascade}
 
 
 
@@ -556,6 +622,9 @@ def instances(tier, seed):
             for striped in (False, True):
                 out.append(dict(key="rows/%s/s%d/%s/split" % (mode, stride, "striped" if striped else "full"), fn="rows",
                                 params=dict(stride=stride, mode=mode, striped=striped, hmax=hmax, kmax=kmax, split=1)))
+    for sx, sy in ((1, 1), (2, 2), (2, 1)):
+        for padding in ("SAME", "VALID"):
+            out.append(dict(key="tconv_pads/%dx%d/%s" % (sx, sy, padding), fn="tconv_pads", params=dict(sx=sx, sy=sy, padding=padding)))
     for kind in ("bilinear", "bilinear_ac", "transpose_same", "transpose_valid"):
         for striped in (False, True):
             if striped and kind.startswith("transpose"):
